@@ -127,6 +127,8 @@ struct AllocInfo { uint32_t id; uint32_t size; int task; int op; int nth; uintpt
 size_t live_count();
 void live_snapshot(std::vector<std::pair<void*, AllocInfo>>& out);
 const AllocInfo* live_find(const void* p);
+void reuse_reset(bool on);      // allocator reuse mode for this run (see rt.cc)
+extern bool g_reuse_mode;
 void arm_alloc_fault(int kth);   // k-th allocation of the current op fails (0 = none)
 int op_alloc_count();            // allocations attempted so far in the current op
 bool op_fault_fired();
